@@ -186,7 +186,9 @@ class Dataset:
         return d / "settings.json"
 
     def config(self):
-        el = {"mode_gamma": {"interpolator": self.interpolator, "order": self.order}}
+        el = {"mode_gamma": {k: v for k, v in (("interpolator", self.interpolator), ("order", self.order)) if k not in getattr(self, "omit", ())}}
+        if not el["mode_gamma"]:
+            del el["mode_gamma"]
         if self.system:
             el["symmetry"] = {"system": self.system}
         return {"qha": {"input": "input01", "settings": copy.deepcopy(self.settings)},
